@@ -24,11 +24,24 @@ pub fn unhex(s: &str) -> Vec<u8> {
 
 /// MSB-first bit writer with the Exp-Golomb codes of clause 9.1
 #[derive(Default, Clone)]
-pub struct W { pub bits: Vec<bool> }
+pub struct W { pub bits: Vec<bool>, /// narrowing-cast fault: the `alias.0`-th ue/se codeword of this structure is written with `alias.1` added to its
+    /// code number (256·k, 65536·k: values a `u8`/`u16` cast maps back onto the intended one), or, with `alias.1 == 0`,
+    /// with 256 extra leading zero bits; everything after it is generated for the intended value
+    pub alias: Option<(usize, u64)>, pub ue_count: usize }
 impl W {
+    pub fn with_alias(r: &mut Rng) -> W {
+        let mut w = W::default();
+        if r.below(6) == 0 { w.alias = Some((r.below(28) as usize, r.pick(&[256, 256, 512, 768, 65536, 131072, 65536 + 256, 0, 1 << 16 << 8, 1u64 << 31]))); }
+        w
+    }
     pub fn u(&mut self, n: u32, v: u64) -> &mut Self { for i in (0..n).rev() { self.bits.push((v >> i) & 1 == 1); } self }
     pub fn b(&mut self, v: bool) -> &mut Self { self.bits.push(v); self }
-    pub fn ue(&mut self, k: u64) -> &mut Self { let m = k + 1; let n = 63 - m.leading_zeros(); for _ in 0..n { self.bits.push(false); } self.u(n + 1, m) }
+    pub fn ue(&mut self, k: u64) -> &mut Self {
+        let mut k = k;
+        if let Some((at, add)) = self.alias { if at == self.ue_count { if add == 0 { for _ in 0..256 { self.bits.push(false); } } else if k + add <= (1u64 << 32) - 2 { k += add; } } }
+        self.ue_count += 1;
+        let m = k + 1; let n = 63 - m.leading_zeros(); for _ in 0..n { self.bits.push(false); } self.u(n + 1, m)
+    }
     pub fn se(&mut self, v: i64) -> &mut Self { let k = if v > 0 { 2 * v - 1 } else { -2 * v }; self.ue(k as u64) }
     pub fn i(&mut self, n: u32, v: i64) -> &mut Self { let m = if n == 0 { 0 } else { (v as u64) & ((1u64 << n) - 1) }; self.u(n, m) }
     /// rbsp_trailing_bits
